@@ -1551,7 +1551,9 @@ impl UnitOffsets {
     #[inline]
     fn debug_info_offset(&self, entry: UnitEntryId) -> Option<DebugInfoOffset> {
         debug_assert_eq!(self.base_id, entry.base_id);
-        let offset = self.entries[entry.index];
+        // An id from `Unit::reserve` that was never passed to `Unit::add_reserved`
+        // may be beyond the end of `entries`.
+        let offset = *self.entries.get(entry.index)?;
         if offset.0 == 0 { None } else { Some(offset) }
     }
 
